@@ -23,6 +23,11 @@ using bspline::support::Grid;
 using bspline::support::Support;
 
 template <typename T>
+static auto makeHamilton(const Spline<T, 1> &v) {
+  return static_cast<T>(-1) / static_cast<T>(2) * Dx<2>{} + SplineOperator{v};
+}
+
+template <typename T>
 struct Shared {
   Grid<T> grid;
   std::vector<T> knots;
@@ -30,8 +35,14 @@ struct Shared {
   Spline<T, 1> potential;                // shared const, used as operator factor
   BSplineGenerator<T> generator;         // shared const
   BilinearForm<IdentityOperator, IdentityOperator> overlap{};
+  // operators and forms with run-time state, themselves shared as const objects; the splines they are applied to live
+  // on two different grid storages (the generated basis has its own, equal, grid; the potential lives on `grid`)
+  decltype(SplineOperator{std::declval<Spline<T, 1>>()}) vop;
+  decltype(BilinearForm{makeHamilton(std::declval<Spline<T, 1>>())}) hshared;
+  decltype(LinearForm{SplineOperator{std::declval<Spline<T, 1>>()}}) vlin;
   Shared(Grid<T> g, std::vector<T> k, Spline<T, 1> v)
-      : grid(g), knots(k), basis(bspline::generateBSplines<3>(k)), potential(std::move(v)), generator(k, g) {}
+      : grid(g), knots(k), basis(bspline::generateBSplines<3>(k)), potential(std::move(v)), generator(k, g),
+        vop(potential), hshared(makeHamilton(potential)), vlin(SplineOperator{potential}) {}
 };
 
 template <typename T>
@@ -83,6 +94,14 @@ static std::vector<uint64_t> work(const Shared<T> &sh, unsigned tid, unsigned ro
       out.push_back(bits(t(x)));
       const auto v = SplineOperator{sh.potential} * b;
       out.push_back(bits(v(x)));
+      // shared operator objects, alternately on the two grid storages
+      const auto sv1 = sh.vop * b;
+      const auto sv2 = sh.vop * sh.potential;
+      out.push_back(bits(sv1(x)));
+      out.push_back(bits(sv2(x)));
+      out.push_back(bits(sh.hshared(a, b)));
+      out.push_back(bits(sh.vlin(sh.potential)));
+      out.push_back(bits(sh.vlin(a)));
       const auto hp = X<P>{} * a;               // higher position power (binomial coefficients)
       out.push_back(bits(hp(x)));
       out.push_back(bits(pform(b)));
